@@ -21,7 +21,8 @@ DECIDES = ('For USBMultibyteStreamInEndpoint with byte_width 1, 2 and 4 (1..8 an
            'taken now); (f) while bytes remain, a byte is offered or the control state advances, for every ready '
            'pattern; (g) a whole word can actually be accepted and completed (the check is not vacuous). ')
 NOT_DECIDED = ('the inner USBStreamInEndpoint / transfer manager (packetisation, ZLPs), the sharing of the '
-               'EndpointInterface with it, and byte widths other than those enumerated.')
+               'EndpointInterface with it, the values of first/last/payload in cycles without a byte hand-over (they are '
+               'only driven while the byte stream is ready), and byte widths other than those enumerated.')
 
 CLS = 'USBMultibyteStreamInEndpoint'
 MOD = 'usb2.endpoints.stream'
@@ -440,11 +441,19 @@ def check(ctx, n):
     ctx.ob('C29.word-width', '%s.stream.payload.width[%s]' % (CLS, tag), pw == 8 * n, si.loc,
            'the word stream payload is %d bits wide, byte_width=%d needs %d' % (pw, n, 8 * n))
     if pw < 8 * n:
+        # the clauses below are about n-byte words; with a narrower word stream none of them can be evaluated or hold
+        for cat, role, text in CLAUSES + (('word-completes', 'word-cycle', 'a whole word can be accepted and completed'),):
+            ctx.ob('C29.' + cat, '%s.%s[%s]' % (CLS, role, tag), False, si.loc,
+                   '%s: cannot hold, the word stream carries only %d of the %d bits of a %d-byte word' % (text, pw, 8 * n, n))
         return
     viol, stats = _explore(m)
     cov = '%d control states x 16 input combinations, %d byte hand-overs checked' % (stats['states'], stats['bytes'])
     for cat, role, text in CLAUSES:
         msg, loc = viol.get(cat, (None, None))
+        if loc is None:
+            sig = (W + '.ready') if role == 'stream.ready' else m.B + '.' + (role.split('.')[1] if not role.endswith('progress') else 'valid')
+            ds = ir.drivers(sig, exact=True)
+            loc = ds[0].loc if ds else None
         ctx.ob('C29.' + cat, '%s.%s[%s]' % (CLS, role, tag), msg is None, loc,
                '%s: %s' % (text, msg) if msg else '%s (%s)' % (text, cov))
     ctx.ob('C29.word-completes', '%s.word-cycle[%s]' % (CLS, tag), stats['words'] > 0, ir.fsms[0].loc if ir.fsms else None,
